@@ -1,9 +1,331 @@
 import ShpanVerif.Util.Parse
-/- Driver handler for C14 (stub: replaced when the property's model lands). -/
+import ShpanVerif.Util.Num1415
+import ShpanVerif.Model.Reduce
+/-
+Driver handler for C14 (reductions).  Timestamps / durations are unix nanoseconds, integers are decimal,
+floats are the 16 hex digits of their IEEE-754 bits.
+
+case :=
+  ar <sum|avg|min|max> <i|f> <periodNs> | <recs>            AlignReduceStream over a fixed UTC period
+  mm <min|max|minlazy|maxlazy> <i|f> | <vals>                stream.Min / Max / MinLazy / MaxLazy
+  rd <sum|avg|min|max|count> <periodNs> | <dt><req> <recs> | …   ReductionDatasource over static datasources
+  rf <sum|avg|min|max|count> <all|urn,urn,…> | <urn><dt><req>,… | <row>;<row>;…   ReduceFieldValue
+  recs := "-" | t:v,t:v,…     vals := "-" | v,v,…     dt := i|f|s|b|t     req := +|?     row := v,v,…
+obs :=
+  ar: ok <recs>            mm: ok <v>
+  rd: ok <integer|decimal|…> <recs with tagged values> | dataerr <type> <class> | err <class>
+  rf: ok <type> <tagged v>;<tagged v>;… | err <class>            tagged v := i<int> | f<hex>
+
+The spec predicate is evaluated on the observation with list-level definitions over exact rationals:
+the groups are `filter`s of the input by period start, sums / means are rational sums of the exactly
+reconstructed float values and are compared with a rigorous rounding bound (0 for integers).
+-/
 namespace ShpanVerif.Drive.C14
+open ShpanVerif.Util ShpanVerif.Util.N1415 ShpanVerif.Model.TsB ShpanVerif.Model.Reduce
+
+def DF : Dec Float := Dec.float
+
+/-- How the spec looks at a numeric carrier: its exact rational value. -/
+structure Exact (ν : Type) where
+  toRat? : ν → Option Rat
+  isFloat : Bool
+
+def exactInt : Exact Int := ⟨fun n => some (n : Rat), false⟩
+def exactFloat : Exact Float := ⟨floatToRat?, true⟩
+
+def ratSum (l : List Rat) : Rat := l.foldl (· + ·) 0
+def ratMaxAbs (l : List Rat) : Rat := l.foldl (fun m x => if ratAbs x > m then ratAbs x else m) 0
+
+def parseTsReducer? : String → Option TsReducer
+  | "sum" => some .sum | "avg" => some .avg | "min" => some .min | "max" => some .max | _ => none
+
+def parseReduction? : String → Option Reduction
+  | "sum" => some .sum | "avg" => some .avg | "min" => some .min | "max" => some .max
+  | "count" => some .count | _ => none
+
+def parseDType? : Char → Option DType
+  | 'i' => some .integer | 'f' => some .decimal | 's' => some .string | 'b' => some .boolean
+  | 't' => some .timestamp | _ => none
+
+def DType.str : DType → String
+  | .integer => "integer" | .decimal => "decimal" | .string => "string" | .boolean => "boolean"
+  | .timestamp => "timestamp"
+
+/-! ### spec: value of a reduction over exactly the given values -/
+
+/-- Does `obs` equal the sum of `g` (exactly for integers; within the rounding bound of a left-to-right
+float summation for floats)? -/
+def specSum (g : List Rat) (obs : Rat) (isFloat : Bool) : Bool :=
+  let tol : Rat := if isFloat then (g.length : Rat) * eps52 * ratSum (g.map ratAbs) else 0
+  ratAbs (obs - ratSum g) ≤ tol
+
+/-- Mean of a non-empty group within the rounding bound of the running update (≈ 4 roundings per element). -/
+def specMean (g : List Rat) (obs : Rat) : Bool :=
+  let n : Rat := (g.length : Rat)
+  let tol : Rat := 2 * (n + 1) * eps52 * ratMaxAbs g
+  g.length > 0 && ratAbs (obs - ratSum g / n) ≤ tol
+
+def specMin (g : List Rat) (obs : Rat) : Bool := g.contains obs && g.all (fun x => obs ≤ x)
+def specMax (g : List Rat) (obs : Rat) : Bool := g.contains obs && g.all (fun x => x ≤ obs)
+
+def specTsReducer (E : Exact ν) (red : TsReducer) (g : List ν) (obs : ν) : Bool :=
+  match g.mapM E.toRat?, E.toRat? obs with
+  | some gr, some o =>
+    match red with
+    | .sum => specSum gr o E.isFloat
+    | .avg => if E.isFloat then specMean gr o else true   -- the mean is claimed for floating types only
+    | .min => specMin gr o
+    | .max => specMax gr o
+  | _, _ => false
+
+def sortedByTime {ν : Type} : List (Rec ν) → Bool
+  | [] => true
+  | [_] => true
+  | a :: b :: rest => a.ts.inst ≤ b.ts.inst && sortedByTime (b :: rest)
+
+/-! ### ar -/
+
+def handleAr {ν : Type} (N : Num ν Float) (w : Wire ν) (E : Exact ν) (red : TsReducer) (d : Int)
+    (recsTxt obs : String) : String × Bool × String :=
+  match parseRecs? w recsTxt with
+  | none => ("bad-case", false, "unparsable records")
+  | some xs =>
+    let p := fixedPeriod d 0
+    let model := "ok " ++ fmtRecs w (alignReduce p N red xs)
+    if !sortedByTime xs then (model, true, "unsorted input: outside the property's domain") else
+    -- spec: one record per period that contains input, stamped with the period start, value = reduction of
+    -- exactly the values whose timestamp lies in that period
+    let starts := (xs.map (fun r => p.start r.ts.inst)).eraseDups
+    match words obs with
+    | ["ok", recs] =>
+      match parseRecs? w recs with
+      | none => (model, false, "unparsable observation")
+      | some os =>
+        if os.length != starts.length then (model, false, s!"want {starts.length} records (one per non-empty period)") else
+        let bad := (List.zip starts os).find? (fun so =>
+          let g := (xs.filter (fun r => p.start r.ts.inst == so.1)).map (·.v)
+          !(so.2.ts.inst == so.1 && specTsReducer E red g so.2.v))
+        match bad with
+        | none => (model, true, "")
+        | some so => (model, false, s!"record at {so.2.ts.inst}: not the reduction of exactly the values of period {so.1}")
+    | _ => (model, false, "unexpected observation")
+
+/-! ### mm -/
+
+def handleMm {ν : Type} (N : Num ν Float) (w : Wire ν) (E : Exact ν) (isMax : Bool)
+    (valsTxt obs : String) : String × Bool × String :=
+  match parseVals? w valsTxt with
+  | none => ("bad-case", false, "unparsable values")
+  | some xs =>
+    let m := if isMax then streamMax N xs else streamMin N xs
+    let model := "ok " ++ w.fmt m
+    match words obs with
+    | ["ok", v] =>
+      match w.parse v with
+      | none => (model, false, "unparsable observation")
+      | some o =>
+        match xs.mapM E.toRat?, E.toRat? o with
+        | some g, some orat =>
+          let ok := if g.isEmpty then orat == 0 else (if isMax then specMax g orat else specMin g orat)
+          (model, ok, if ok then "" else "not the true extremum (zero value for the empty stream)")
+        | _, _ => (model, false, "non-finite value")
+    | _ => (model, false, "unexpected observation")
+
+/-! ### tagged values -/
+
+def fmtVal : Val Float → String
+  | .i n => s!"i{n}"
+  | .d x => "f" ++ fmtFloatBits x
+
+def parseTagged? (s : String) : Option (Val Float) :=
+  if s.startsWith "i" then (s.drop 1).toString.toInt?.map Val.i
+  else if s.startsWith "f" then (parseFloatBits? (s.drop 1).toString).map Val.d
+  else none
+
+def valRat? : Val Float → Option Rat
+  | .i n => some (n : Rat)
+  | .d x => floatToRat? x
+
+/-- wire format of an untagged value of a field / datasource declared `dt` (non numeric: dummy integers). -/
+def wireVal (dt : DType) : Wire (Val Float) :=
+  match dt with
+  | .decimal => ⟨fun s => (parseFloatBits? s).map Val.d, fmtVal⟩
+  | _ => ⟨fun s => s.toInt?.map Val.i, fmtVal⟩
+
+/-- spec of a tsquery reduction over exactly `vals` (all of declared type `dt`): the documented result
+type (decimal for avg, integer for count, input type otherwise) as the DYNAMIC type of `obs`, and the value. -/
+def specReduction (r : Reduction) (dt : DType) (vals : List (Val Float)) (obs : Val Float) : Bool :=
+  let wantType : DType := match r with | .avg => .decimal | .count => .integer | _ => dt
+  obs.dtype == wantType &&
+  match vals.mapM valRat?, valRat? obs with
+  | some g, some o =>
+    let n : Rat := (g.length : Rat)
+    let isF := dt == .decimal
+    match r with
+    | .count => o == n
+    | .sum => specSum g o isF
+    | .avg => g.length > 0 && ratAbs (o - ratSum g / n) ≤ (n + 2) * eps52 * ratSum (g.map ratAbs) / n
+    | .min => specMin g o
+    | .max => specMax g o
+  | _, _ => false
+
+/-! ### rd -/
+
+def parseDs? (ts : List String) : Option (DS Float) :=
+  match ts with
+  | [hd, recs] =>
+    match hd.toList with
+    | [c, q] => do
+      let dt ← parseDType? c
+      let req ← (if q == '+' then some true else if q == '?' then some false else none)
+      let rs ← parseRecs? (wireVal dt) recs
+      pure ⟨dt, req, rs⟩
+    | _ => none
+  | _ => none
+
+def fmtTaggedRecs (l : List (Rec (Val Float))) : String :=
+  fmtList (fun (r : Rec (Val Float)) => s!"{r.ts.inst}:{fmtVal r.v}") l
+
+def parseTaggedRecs? (s : String) : Option (List (Rec (Val Float))) :=
+  parseRecs? ⟨parseTagged?, fmtVal⟩ s
+
+/-- list-level alignment (what C13 establishes for the aligner): one record per period that contains
+input; the first period carries its first value, a later one the value on the boundary or the
+interpolation between the last record before and the first record of the period. -/
+def specAligned (p : Period) (dt : DType) (xs : List (Rec (Val Float))) : Option (List (Rec (Val Float))) :=
+  let starts := (xs.map (fun r => p.start r.ts.inst)).eraseDups
+  let items := fun (s : Int) => xs.filter (fun r => p.start r.ts.inst == s)
+  (List.zip (List.range starts.length) starts).mapM (fun is =>
+    let s := is.2
+    match (items s).head? with
+    | none => none
+    | some first =>
+      if is.1 == 0 || first.ts.inst == s then some ⟨⟨s, 0⟩, first.v⟩
+      else
+        match (items (starts.getD (is.1 - 1) 0)).getLast? with
+        | none => none
+        | some lp =>
+          match twaVal DF dt s lp.ts.inst lp.v first.ts.inst first.v with
+          | .ok v => some ⟨⟨s, 0⟩, v⟩
+          | .error _ => none)
+
+def handleRd (r : Reduction) (d : Int) (dss : List (DS Float)) (obs : String) : String × Bool × String :=
+  let p := fixedPeriod d 0
+  let model := match reductionDatasource DF p r dss with
+    | .error e => "err " ++ e.str
+    | .ok (rt, (rows, none)) => s!"ok {DType.str rt} {fmtTaggedRecs rows}"
+    | .ok (rt, (_, some e)) => s!"dataerr {DType.str rt} {e.str}"
+  if !dss.all (fun ds => sortedByTime ds.recs) then (model, true, "unsorted input: outside the property's domain") else
+  -- preconditions of a reduction: at least one datasource, all numeric, of one type, required
+  let valid := match dss with
+    | [] => false
+    | d0 :: rest => d0.dtype.isNumeric && dss.all (·.required) && rest.all (fun x => x.dtype == d0.dtype)
+  match words obs, dss with
+  | "err" :: _, _ => (model, !valid, if valid then "a valid reduction was rejected" else "")
+  | ["ok", ty, recs], d0 :: _ =>
+    if !valid then (model, false, "an invalid reduction was accepted") else
+    let wantType : DType := match r with | .avg => .decimal | .count => .integer | _ => d0.dtype
+    if ty != DType.str wantType then (model, false, s!"declared type {ty}, want {DType.str wantType}") else
+    match parseTaggedRecs? recs, dss.mapM (fun ds => specAligned p ds.dtype ds.recs) with
+    | some os, some (a0 :: arest) =>
+      -- one row per aligned timestamp present in ALL datasources
+      let common := a0.filter (fun x => arest.all (fun a => a.any (fun y => y.ts.inst == x.ts.inst)))
+      if os.length != common.length then (model, false, s!"want {common.length} rows (timestamps present in all datasources)") else
+      let bad := (List.zip common os).find? (fun co =>
+        let vals := (a0 :: arest).filterMap (fun a => (a.find? (fun y => y.ts.inst == co.1.ts.inst)).map (·.v))
+        !(co.2.ts.inst == co.1.ts.inst && vals.length == dss.length && specReduction r d0.dtype vals co.2.v))
+      match bad with
+      | none => (model, true, "")
+      | some co => (model, false, s!"row at {co.2.ts.inst}: not the {DType.str wantType} reduction of exactly the aligned values")
+    | _, _ => (model, false, "unparsable observation")
+  | _, _ => (model, false, "unexpected observation")
+
+/-! ### rf -/
+
+def parseField? (s : String) : Option FMeta :=
+  match s.toList.reverse with
+  | q :: c :: urnRev => do
+    let urn ← (String.ofList urnRev.reverse).toNat?
+    let dt ← parseDType? c
+    let req ← (if q == '+' then some true else if q == '?' then some false else none)
+    pure ⟨urn, dt, req⟩
+  | _ => none
+
+def parseRow? (fields : List FMeta) (s : String) : Option (List (Val Float)) :=
+  let parts := s.splitOn ","
+  if parts.length != fields.length then none
+  else (List.zip fields parts).mapM (fun fp => (wireVal fp.1.dtype).parse fp.2)
+
+def handleRf (r : Reduction) (sel : Option (List Nat)) (fields : List FMeta) (rows : List (List (Val Float)))
+    (obs : String) : String × Bool × String :=
+  let model := match reduceFieldExecute DF r sel fields with
+    | .error e => "err " ++ e.str
+    | .ok (rt, f) =>
+      match rows.mapM f with
+      | .error e => s!"dataerr {DType.str rt} {e.str}"
+      | .ok vs => s!"ok {DType.str rt} " ++ (if vs.isEmpty then "-" else ";".intercalate (vs.map fmtVal))
+  -- the fields selected (independently of the model): by urn, each requested urn exactly once
+  let chosen : List (Nat × FMeta) := (List.zip (List.range fields.length) fields).filter (fun im =>
+    match sel with | none => true | some urns => urns.contains im.2.urn)
+  let selOk := match sel with
+    | none => true
+    | some urns => urns.all (fun u => (fields.filter (fun f => f.urn == u)).length == 1)
+  let valid := match chosen with
+    | [] => false
+    | c0 :: rest => selOk && c0.2.dtype.isNumeric && chosen.all (·.2.required) && rest.all (fun x => x.2.dtype == c0.2.dtype)
+  match words obs, chosen with
+  | "err" :: _, _ => (model, !valid, if valid then "a valid reduction was rejected" else "")
+  | ["ok", ty, vals], c0 :: _ =>
+    if !valid then (model, false, "an invalid reduction was accepted") else
+    let wantType : DType := match r with | .avg => .decimal | .count => .integer | _ => c0.2.dtype
+    if ty != DType.str wantType then (model, false, s!"declared type {ty}, want {DType.str wantType}") else
+    let os? := if vals == "-" then some [] else (vals.splitOn ";").mapM parseTagged?
+    match os? with
+    | none => (model, false, "unparsable observation")
+    | some os =>
+      if os.length != rows.length then (model, false, "one value per row expected") else
+      let bad := (List.zip rows os).find? (fun ro =>
+        !specReduction r c0.2.dtype (chosen.map (fun im => ro.1.getD im.1 (.i 0))) ro.2)
+      match bad with
+      | none => (model, true, "")
+      | some _ => (model, false, s!"a value is not the {DType.str wantType} reduction of exactly the selected fields")
+  | _, _ => (model, false, "unexpected observation")
 
 /-- returns (model output, spec verdict on the observation, reason) -/
-def handle (_c _obs : String) : String × Bool × String :=
-  ("unimplemented", false, "no model yet")
+def handle (c obs : String) : String × Bool × String :=
+  match splitAt "|" (words c) with
+  | ["ar", red, ty, d] :: [[recs]] =>
+    match parseTsReducer? red, d.toInt? with
+    | some red, some d =>
+      if d ≤ 0 then ("bad-case", false, "period") else
+      if ty == "i" then handleAr (Num.int DF) wireInt exactInt red d recs obs
+      else if ty == "f" then handleAr (Num.dec DF) wireFloat exactFloat red d recs obs
+      else ("bad-case", false, "type")
+    | _, _ => ("bad-case", false, "unparsable case")
+  | ["mm", op, ty] :: [[vals]] =>
+    let isMax? : Option Bool := match op with
+      | "max" | "maxlazy" => some true
+      | "min" | "minlazy" => some false
+      | _ => none
+    match isMax? with
+    | none => ("bad-case", false, "op")
+    | some isMax =>
+      if ty == "i" then handleMm (Num.int DF) wireInt exactInt isMax vals obs
+      else if ty == "f" then handleMm (Num.dec DF) wireFloat exactFloat isMax vals obs
+      else ("bad-case", false, "type")
+  | ["rd", red, d] :: dsToks =>
+    match parseReduction? red, d.toInt?, dsToks.mapM parseDs? with
+    | some r, some d, some dss => if d ≤ 0 then ("bad-case", false, "period") else handleRd r d dss obs
+    | _, _, _ => ("bad-case", false, "unparsable case")
+  | ["rf", red, sel] :: [[fieldsTxt], [rowsTxt]] =>
+    let sel? : Option (Option (List Nat)) := if sel == "all" then some none else (parseNatList sel).map some
+    match parseReduction? red, sel?, (fieldsTxt.splitOn ",").mapM parseField? with
+    | some r, some sel, some fields =>
+      let rows? := if rowsTxt == "-" then some [] else (rowsTxt.splitOn ";").mapM (parseRow? fields)
+      match rows? with
+      | some rows => handleRf r sel fields rows obs
+      | none => ("bad-case", false, "unparsable rows")
+    | _, _, _ => ("bad-case", false, "unparsable case")
+  | _ => ("bad-case", false, "unknown sub-command")
 
 end ShpanVerif.Drive.C14
